@@ -270,8 +270,10 @@ def history_check(rep, tier, seed):
     if bad is None:
         hists = [[i, j] for i in range(len(pool)) for j in range(len(pool)) if i != j][: (120 if q else 10**6)]
         hists += [rnd.sample(range(len(pool)), 3) for _ in range(40 if q else 400)]
-        hists += [[i, i] for i in range(len(pool))]
         rnd.shuffle(hists)
+        # every request twice in a row comes first (cheap, and the shape in which a polluted cache shows), then the shuffled rest
+        hists = [[i, i] for i in range(len(pool))] + hists
+        t_h = time.time()
         for h in hists:
             for idx in h:
                 src, opts = pool[idx]
@@ -288,7 +290,7 @@ def history_check(rep, tier, seed):
                     bad = ("mutation", h, f"compile_code modified its {'options object' if o != o_before else 'source mapping'} (request {idx})", reqs[idx])
                     break
             n_hist += 1
-            if bad or time.time() - t0 > (70 if q else 1200):
+            if bad or time.time() - t_h > (45 if q else 1200):
                 break
     ob = Ob("compiler.compile_code#result_is_a_function_of_sources_and_options", HELD if not bad else VIOLATED, kind="bounded", backend="native", target="compiler.compile_code",
             bound=f"{n_hist} request histories (length 2-3) over a pool of {len(pool)} requests; fresh-process references under several PYTHONHASHSEED values", time_s=time.time() - t0)
